@@ -250,3 +250,60 @@ Proof.
     destruct (check_ack r) as [x|] eqn:Ec; [apply orb_true_r|].
     rewrite (success_only_if_acked _ _ _ _ Hr Ec). reflexivity.
 Qed.
+
+(* ---------- GetRules ---------- *)
+Lemma bytes_eqb_refl' (a : str) : bytes_eqb a a = true.
+Proof. induction a as [|x a IH]; [reflexivity|]. cbn [bytes_eqb]. rewrite Ascii.eqb_refl. exact IH. Qed.
+Lemma lbytes_eqb_refl' (l : list str) : lbytes_eqb l l = true.
+Proof. induction l as [|x l IH]; [reflexivity|]. cbn [lbytes_eqb]. rewrite bytes_eqb_refl'. exact IH. Qed.
+
+Lemma spec_rules_collect : forall fuel q script acc,
+  match spec_rules fuel q script acc with
+  | Some (Some (rules, rest)) => collect_rules fuel q script acc = (inr rules, rest)
+  | Some None => exists e r, collect_rules fuel q script acc = (inl e, r)
+  | None => True
+  end.
+Proof.
+  induction fuel as [|f IH]; intros q script acc; cbn [spec_rules collect_rules]; [exact I|].
+  pose proof (spec_reply q script) as HS.
+  destruct (spec_next q script 0) as [ty d rest| |]; [| |exact I].
+  - rewrite HS. change UAPI_NLMSG_DONE with NLMSG_DONE. change UAPI_AUDIT_LIST_RULES with AUDIT_LIST_RULES.
+    destruct (ty =? NLMSG_DONE); [reflexivity|]. destruct (ty =? AUDIT_LIST_RULES); [apply IH|exact I].
+  - destruct HS as [r HS]. rewrite HS. eexists. eexists. reflexivity.
+Qed.
+
+Definition get_rules_result (q : N) (script : list revent) : cres :=
+  let '(r, rest) := reply q script in
+  match check_ack r with
+  | Some e => RFail e
+  | None => match fst (collect_rules (S (length rest)) q rest []) with inl e => RFail e | inr rs => RRules rs end
+  end.
+
+Lemma get_rules_is s w : no_fault w -> result_of (snd (cstep s w OGetRules)) = get_rules_result (next_seq s) (rscript w).
+Proof.
+  intros Hn. cbn [cstep]. unfold get_rules, get_rules_result, do_send, no_fault, next_seq in *.
+  destruct (sfaults w) as [|f fs]; cbn [rscript].
+  - destruct (reply ((nseq s + 1) mod 2 ^ 32) (rscript w)) as [r rest]. destruct (check_ack r); [reflexivity|].
+    destruct (collect_rules (S (length rest)) ((nseq s + 1) mod 2 ^ 32) rest []) as [rr rest']. reflexivity.
+  - destruct f as [e|]; [destruct Hn|].
+    destruct (reply ((nseq s + 1) mod 2 ^ 32) (rscript w)) as [r rest]. destruct (check_ack r); [reflexivity|].
+    destruct (collect_rules (S (length rest)) ((nseq s + 1) mod 2 ^ 32) rest []) as [rr rest']. reflexivity.
+Qed.
+
+Theorem chk_c08_accepts_get_rules s w : no_fault w ->
+  chk_c08_call OGetRules (next_seq s) (rscript w) (result_of (snd (cstep s w OGetRules))) = true.
+Proof.
+  intros Hn. rewrite (get_rules_is s w Hn). set (q := next_seq s). set (script := rscript w).
+  cbn [chk_c08_call]. unfold get_rules_result.
+  destruct (spec_ack q script) as [e rest0| |] eqn:Ea.
+  - destruct (spec_ack_reply _ _ _ _ Ea) as (ty & d & Hr & Hc). rewrite Hr, Hc.
+    destruct (Z.eqb e 0); [|apply cres_eqb_refl_fail].
+    pose proof (spec_rules_collect (S (length rest0)) q rest0 []) as HS.
+    destruct (spec_rules (S (length rest0)) q rest0 []) as [[[rules rest1]|]|]; [| |reflexivity].
+    + rewrite HS. cbn [fst cres_eqb]. apply lbytes_eqb_refl'.
+    + destruct HS as (e' & r' & HS). rewrite HS. reflexivity.
+  - destruct (spec_ack_foreign _ _ Ea) as [r' Hr]. rewrite Hr. reflexivity.
+  - destruct (reply q script) as [r rest] eqn:Hr. unfold unacked_must_fail.
+    destruct (check_ack r) as [x|] eqn:Ec; [apply orb_true_r|].
+    rewrite (success_only_if_acked _ _ _ _ Hr Ec). reflexivity.
+Qed.
